@@ -46,13 +46,23 @@ import (
 // ------------------------------------------------------------------ case format
 
 type Event struct {
-	Op string `json:"op"` // span | profile | err | panic
+	Op string `json:"op"` // span | profile | entries | err | panic
 	// span
 	Tid   int `json:"tid,omitempty"`
 	Sid   int `json:"sid,omitempty"`
 	Keys  int `json:"keys,omitempty"`
 	Vals  int `json:"vals,omitempty"`
 	Bytes int `json:"bytes,omitempty"` // span: len(name); profile: len of the single tag value
+	// entries: lengths of the four slices handed to onEntries, the sample type of every entry (>= 3: out of range),
+	// bytes per message, days the timestamps are spread over, a label pair with a single string
+	NTs      int  `json:"nts,omitempty"`
+	NMsg     int  `json:"nmsg,omitempty"`
+	NVal     int  `json:"nval,omitempty"`
+	NTypes   int  `json:"ntypes,omitempty"`
+	Type     int  `json:"type,omitempty"`
+	MsgLen   int  `json:"msglen,omitempty"`
+	Days     int  `json:"days,omitempty"`
+	LblShort bool `json:"lbl_short,omitempty"`
 	// err
 	Typed bool `json:"typed,omitempty"` // a QrynError with code 400 instead of a plain error
 }
@@ -71,11 +81,13 @@ type Obs struct {
 
 type Case struct {
 	ID     int     `json:"id"`
-	Kind   string  `json:"kind"` // spans | prof
+	Kind   string  `json:"kind"` // spans | prof | logs
 	Class  string  `json:"class"`
 	Events []Event `json:"events"`
-	// what the model needs per event and the harness computes: bytes added to the batch size
-	Sizes []int `json:"sizes"`
+	// what the model needs per event and the harness computes: bytes added to the batch size,
+	// and (entries) the (day, type) pairs the call announces
+	Sizes  []int `json:"sizes"`
+	Series []int `json:"series,omitempty"`
 	Obs   *Obs  `json:"obs,omitempty"`
 }
 
@@ -113,6 +125,10 @@ func (r *recorder) Request(req helpers.SizeGetter, insertMode int) *promise.Prom
 	case *model.ProfileData:
 		b.Cols = []int{len(x.TimestampNs), len(x.Ptype), len(x.ServiceName), len(x.PeriodType), len(x.PeriodUnit), len(x.DurationNs),
 			len(x.PayloadType), len(x.Payload)}
+	case *model.TimeSamplesData:
+		b.Cols = []int{len(x.MFingerprint), len(x.MTimestampNS), len(x.MMessage), len(x.MValue), len(x.MTTLDays), len(x.MType)}
+	case *model.TimeSeriesData:
+		b.Cols = []int{len(x.MDate), len(x.MLabels), len(x.MFingerprint), len(x.MTTLDays), len(x.MType)}
 	default:
 		b.Svc += fmt.Sprintf(":unexpected %T", req)
 	}
@@ -192,6 +208,55 @@ func (s *scriptedProf) Decode() error {
 	return nil
 }
 
+type scriptedLogs struct{ onEntries unmarshal.VerifC05OnEntries }
+
+const day0 = int64(1700000000) / 86400 * 86400 * 1000000000
+
+func entryLabels(ev Event, id, i int) [][]string {
+	if ev.LblShort {
+		return [][]string{{"only-one-string"}}
+	}
+	return [][]string{{"e", fmt.Sprintf("%d_%d", id, i)}}
+}
+
+func daysOf(ev Event) int {
+	d := ev.Days
+	if d < 1 {
+		d = 1
+	}
+	if d > ev.NTs {
+		d = ev.NTs
+	}
+	return d
+}
+
+var currentID int
+
+func (s *scriptedLogs) SetOnEntries(h unmarshal.VerifC05OnEntries) { s.onEntries = h }
+func (s *scriptedLogs) Decode() error {
+	for i, ev := range current {
+		if ev.Op != "entries" {
+			return endOf(ev)
+		}
+		ts := make([]int64, ev.NTs)
+		for k := range ts {
+			ts[k] = day0 + int64(k%daysOf(ev))*86400*1000000000 + int64(k)
+		}
+		msg := make([]string, ev.NMsg)
+		for k := range msg {
+			msg[k] = strings.Repeat("m", ev.MsgLen)
+		}
+		types := make([]uint8, ev.NTypes)
+		for k := range types {
+			types[k] = uint8(ev.Type)
+		}
+		if err := s.onEntries(entryLabels(ev, currentID, i), ts, msg, make([]float64, ev.NVal), types); err != nil {
+			return err
+		}
+	}
+	return nil
+}
+
 // bytes the model accounts per event (what onSpan adds to Size / the size onProfile computes is derived in Coq)
 func sizesOf(kind string, evs []Event) []int {
 	out := make([]int, len(evs))
@@ -210,9 +275,27 @@ func sizesOf(kind string, evs []Event) []int {
 	return out
 }
 
+// entries: (day, type) pairs announced (fresh labels: every pair is new) and the bytes accounted
+func entriesSizes(id int, evs []Event) ([]int, []int) {
+	sizes, series := make([]int, len(evs)), make([]int, len(evs))
+	for i, ev := range evs {
+		if ev.Op != "entries" {
+			continue
+		}
+		if ev.NTypes > 0 && ev.Type < 3 {
+			series[i] = daysOf(ev)
+		}
+		sizes[i] = ev.NTs * (ev.MsgLen + 26)
+		if !ev.LblShort {
+			sizes[i] += series[i] * (14 + len(unmarshal.VerifC04EncodeLabels(entryLabels(ev, id, i))))
+		}
+	}
+	return sizes, series
+}
+
 // ------------------------------------------------------------------ the routes under test
 
-func setup() (*reg, http.HandlerFunc, http.HandlerFunc) {
+func setup() (*reg, http.HandlerFunc, http.HandlerFunc, http.HandlerFunc) {
 	logger.Logger.SetOutput(io.Discard)
 	config.Cloki = clconfig.New(clconfig.CLOKI_WRITER, nil, "", "")
 	config.Cloki.Setting.SYSTEM_SETTINGS.RetryAttempts = 1
@@ -232,7 +315,12 @@ func setup() (*reg, http.HandlerFunc, http.HandlerFunc) {
 		controllerv1.VerifC05WithSimpleParser("*", controllerv1.Parser(spansFn)), controllerv1.VerifC05WithOkStatusAndBody(202, nil))
 	prof := controllerv1.Build(controllerv1.WithOverallContextMiddleware, controllerv1.VerifC05WithTSAndSampleService,
 		controllerv1.VerifC05WithSimpleParser("*", controllerv1.Parser(profFn)), controllerv1.VerifC05WithOkStatusAndBody(200, []byte("{}")))
-	return r, spans, prof
+	logsFn := unmarshal.Build(unmarshal.VerifC05WithLogsParser(func(ctx *unmarshal.ParserCtx) unmarshal.VerifC05LogsParser {
+		return &scriptedLogs{}
+	}))
+	logs := controllerv1.Build(controllerv1.WithOverallContextMiddleware, controllerv1.VerifC05WithTSAndSampleService,
+		controllerv1.VerifC05WithSimpleParser("*", controllerv1.Parser(logsFn)), controllerv1.VerifC05WithOkStatusAndBody(204, nil))
+	return r, spans, prof, logs
 }
 
 func classOf(status int) string {
@@ -288,11 +376,49 @@ func genEnd(r *rand.Rand, evs []Event) ([]Event, string) {
 	return evs, "nil"
 }
 
+func genLogs(r *rand.Rand, c *Case, n int, tags map[string]bool) {
+	c.Kind = "logs"
+	for i := 0; i < n; i++ {
+		k := r.Intn(5)
+		ev := Event{Op: "entries", NTs: k, NMsg: k, NVal: k, NTypes: k, Type: 1 + r.Intn(2), MsgLen: r.Intn(100), Days: 1 + r.Intn(2)}
+		switch r.Intn(16) {
+		case 0:
+			ev.NMsg = k + 1 + r.Intn(2) // more messages than timestamps: passes the index checks
+			tags["unequal"] = true
+		case 1:
+			if k > 0 {
+				ev.NMsg = r.Intn(k) // fewer: message[i] panics after the appends
+				tags["unequal"] = true
+			}
+		case 2:
+			ev.NVal = pick(r, 0, k+1, k+3)
+			tags["unequal"] = ev.NVal != k || tags["unequal"]
+		case 3:
+			ev.NTypes = pick(r, 0, k+1)
+			tags["unequal"] = ev.NTypes != k || tags["unequal"]
+		case 4:
+			ev.Type = 3 + r.Intn(250) // tps[t] out of range
+			tags["bad-type"] = ev.NTypes > 0 || tags["bad-type"]
+		case 5:
+			ev.Type = 0
+		case 6:
+			ev.LblShort = true
+			tags["lbl-short"] = true
+		case 7, 8:
+			ev.MsgLen = 150000 + r.Intn(200000) // a few of these flush
+			tags["big"] = true
+		}
+		c.Events = append(c.Events, ev)
+	}
+}
+
 func genCase(r *rand.Rand, id int) Case {
 	c := Case{ID: id}
 	n := r.Intn(7)
 	tags := map[string]bool{}
-	if r.Intn(3) > 0 {
+	if r.Intn(5) < 2 {
+		genLogs(r, &c, n, tags)
+	} else if r.Intn(3) > 0 {
 		c.Kind = "spans"
 		for i := 0; i < n; i++ {
 			ev := Event{Op: "span", Tid: 16, Sid: 8, Keys: r.Intn(5), Bytes: r.Intn(200)}
@@ -332,13 +458,21 @@ func genCase(r *rand.Rand, id int) Case {
 	var end string
 	c.Events, end = genEnd(r, c.Events)
 	c.Class = c.Kind + "/end-" + end
-	for _, k := range []string{"width", "short-vals", "long-vals", "big"} {
+	for _, k := range []string{"width", "short-vals", "long-vals", "unequal", "bad-type", "lbl-short", "big"} {
 		if tags[k] {
 			c.Class += "/" + k
 		}
 	}
-	c.Sizes = sizesOf(c.Kind, c.Events)
+	fillSizes(&c)
 	return c
+}
+
+func fillSizes(c *Case) {
+	if c.Kind == "logs" {
+		c.Sizes, c.Series = entriesSizes(c.ID, c.Events)
+		return
+	}
+	c.Sizes = sizesOf(c.Kind, c.Events)
 }
 
 // ------------------------------------------------------------------ main
@@ -354,7 +488,7 @@ func main() {
 				panic(err)
 			}
 			c.Obs = nil
-			c.Sizes = sizesOf(c.Kind, c.Events)
+			fillSizes(&c)
 			cases = append(cases, c)
 		})
 	} else {
@@ -387,11 +521,12 @@ func main() {
 		}
 		return
 	}
-	rg, spans, prof := setup()
+	rg, spans, prof, logs := setup()
 	// warm up, then the goroutine baseline
 	current = nil
 	serve(spans, 10*time.Second)
 	serve(prof, 10*time.Second)
+	serve(logs, 10*time.Second)
 	time.Sleep(30 * time.Millisecond)
 	for _, r := range []*recorder{rg.ts, rg.spl, rg.tags, rg.spans, rg.prof} {
 		r.take()
@@ -401,9 +536,12 @@ func main() {
 		c := &cases[i]
 		emit(map[string]int{"begin": c.ID})
 		current = c.Events
+		currentID = c.ID
 		h := spans
 		if c.Kind == "prof" {
 			h = prof
+		} else if c.Kind == "logs" {
+			h = logs
 		}
 		outcome, status, detail := serve(h, 5*time.Second)
 		o := &Obs{Outcome: outcome, Status: status, Detail: detail}
@@ -424,7 +562,7 @@ func main() {
 			}
 		}
 		// batches in the order the services saw them, spans service first for equal positions
-		for _, r := range []*recorder{rg.spans, rg.tags, rg.prof, rg.ts, rg.spl} {
+		for _, r := range []*recorder{rg.spans, rg.tags, rg.prof, rg.spl, rg.ts} {
 			o.Batches = append(o.Batches, r.take()...)
 		}
 		c.Obs = o
